@@ -241,15 +241,29 @@ def check_case(ctx, drv, case):
 
         walk(obs["bt"])
         for pk in obs["peaks"]:
-            tot = sum(size_of[(i,)] for i in range(len(net.inputs)))
+            # the definition: the inputs are live; each step needs its two operands among the live tensors
+            # (a schedule in which an operand does not exist yet is not executable: its "peak" is the peak of
+            # nothing), all live tensors and its output exist at the same time; then the operands are gone
+            live = {(i,) for i in range(len(net.inputs))}
+            tot = sum(size_of[x] for x in live)
             peak = tot
             for k in pk["seq"]:
                 p_ = tuple(internal[k])
-                tot += size_of[p_]
-                peak = max(peak, tot)
-                tot -= size_of[kids[p_][0]] + size_of[kids[p_][1]]
-            if peak != pk["peak"]:
-                fail = ("peak:" + pk["order"], pk["peak"], peak)
+                a_, b_ = kids[p_]
+                if a_ not in live or b_ not in live:
+                    fail = ("peak:" + pk["order"] + ":order-not-executable", sorted(p_), pk["seq"])
+                    break
+                peak = max(peak, tot + size_of[p_])
+                live -= {a_, b_}
+                live.add(p_)
+                tot = sum(size_of[x] for x in live)
+            else:
+                if len(pk["seq"]) != len(internal) or (len(net.inputs) >= 2 and len(live) != 1):
+                    fail = ("peak:" + pk["order"] + ":order-incomplete", pk["seq"], len(internal))
+                elif peak != pk["peak"]:
+                    fail = ("peak:" + pk["order"], pk["peak"], peak)
+            if fail is not None:
+                break
     ctx.count("sizes:" + case.get("size_type", "int") + ("/big" if case.get("big") else ""))
     if case.get("big") and obs["flops"] >= 1 << 63:
         ctx.count("sizes:flops>=2^63")
